@@ -26,6 +26,34 @@ from harness.simtransport import SimTransport, make_conn, named  # noqa: E402
 
 PROMPT = "r1#"
 MARK = "show silent"
+T_BIG = 600.0      # timeout_ops of operations that are not meant to time out in the scenario (still through the decorator)
+
+
+class ArgsProxy:
+    """stands in for `channel._base_channel_args`: `timeout_ops` depends on the THREAD that reads it.  The timeout decorator
+    reads it in the thread that called the operation, so every caller has its own timeout by construction (no sleeps, no
+    ordering assumptions); everything else is the real object"""
+
+    def __init__(self, real, table, default):
+        object.__setattr__(self, "_real", real)
+        object.__setattr__(self, "_table", table)
+        object.__setattr__(self, "_default", default)
+
+    @property
+    def timeout_ops(self):
+        try:
+            import asyncio
+            task = asyncio.current_task()
+        except RuntimeError:
+            task = None
+        key = task.get_name() if task is not None else threading.current_thread().name
+        return self._table.get(key, self._default)
+
+    def __getattr__(self, name):
+        return getattr(self._real, name)
+
+    def __setattr__(self, name, value):
+        setattr(self._real, name, value)
 
 
 class TimedTransport(SimTransport):
@@ -37,9 +65,15 @@ class TimedTransport(SimTransport):
         self.armed = False
         self.owners = []          # thread name of every transport call that reached the device
         self.delayed = False
+        self.closers = []         # names of the caller threads that closed the transport (= whose timeout fired), in order
 
     def arm(self, mode):
         self.mode, self.armed = mode, False
+
+    def close(self) -> None:
+        # `_handle_timeout` runs in the thread that called the operation: its name says WHOSE timer fired (event order, not wall clock)
+        self.closers.append(threading.current_thread().name)
+        SimTransport.close(self)
 
     def write(self, channel_input: bytes) -> None:
         if self.mode == ("gp",) and channel_input == b"\n":
@@ -103,14 +137,24 @@ def report(c, t0):
 
 
 def main(sc):
-    tmo, slack = sc["timeout_ops"], sc.get("slack", 8.0)
+    tmo, slack, sep = sc["timeout_ops"], sc.get("slack", 8.0), sc.get("separation", 4.0)
     dev = CliDevice("cisco_iosxe", hostname="r1", outputs=lambda mode, line: ("out<%s>" % line) if line else None)
     tcls = TimedTransport if sc["tname"] == "SimTransport" else named(TimedTransport, sc["tname"])
-    conn, t = make_conn("cisco_iosxe", dev, stack="sync", transport_cls=tcls, on_empty="block", channel_lock=True, timeout_ops=tmo)
+    conn, t = make_conn("cisco_iosxe", dev, stack="sync", transport_cls=tcls, on_empty="block", channel_lock=True, timeout_ops=T_BIG)
     t.open()
     t.buf.clear()
     lock = conn.channel.channel_lock
     out = {"lock_type": type(lock).__name__}
+    # per-caller timeouts (by thread name).  Only the caller that has to time out gets the small one; the callers queued behind
+    # it get one that is `sep` seconds later, everybody else T_BIG.  Should the order of the timers flip nevertheless, `closers`
+    # records whose fired first and the oracle follows the recorded order.
+    table = {"hung": tmo, "waiter": tmo, "holder": sc.get("a_timeout", T_BIG)}
+    for i in range(len(sc["queued"])):
+        table[f"queued{i}"] = tmo + sep
+    if sc.get("queued_first") and sc["queued"] and not sc.get("waiter"):
+        table["queued0"] = T_BIG          # runs to its end before the silent operation starts
+    conn.channel._base_channel_args = ArgsProxy(conn.channel._base_channel_args, table, T_BIG)
+    out["timeouts"] = table
     if sc.get("waiter"):
         return waiter_scenario(sc, conn, t, lock, out)
     hk, hwhen = sc["hung"]
@@ -126,8 +170,8 @@ def main(sc):
         # one queued caller runs to its end BEFORE the silent operation starts
         first = queued.pop(0)
         pre.append((first, qspecs.pop(0)))
-        first.start()
-        first.join(tmo + slack)
+        first.start()                 # its timeout_ops is T_BIG: it is not meant to time out
+        first.join(slack)
     t.arm(("gp",) if hk == "gp" else (hwhen,))
     t_h = time.time()
     hung.start()
@@ -145,16 +189,16 @@ def main(sc):
     out["queued"] = [dict(report(c, t_h), spec=s) for c, s in pre] + [dict(report(c, t_h), spec=s) for c, s in zip(queued, qspecs)]
     out["lock_locked_after"] = lock.locked()
     out["transport_alive_after"] = t.isalive()
+    out["closers"] = list(t.closers)
     somebody_stuck = hung.is_alive() or any(c.is_alive() for c in queued)
-    out["phase2"] = phase2(conn, t, lock, tmo, slack) if not somebody_stuck and not lock.locked() else None
+    out["phase2"] = phase2(conn, t, lock, slack) if not somebody_stuck and not lock.locked() else None
     return out
 
 
 def waiter_scenario(sc, conn, t, lock, out):
     """a caller's timeout expires while it WAITS for the lock: the holder's operation is slow (device answers after
     a_delay, its own timeout_ops is a_timeout), the waiter and the callers after it run with the small timeout_ops"""
-    tmo, slack = sc["timeout_ops"], sc.get("slack", 8.0)
-    conn.channel._base_channel_args.timeout_ops = sc["a_timeout"]
+    tmo, slack, sep = sc["timeout_ops"], sc.get("slack", 8.0), sc.get("separation", 4.0)
     holder_spec = ["si", MARK]
     holder = Caller("holder", op(conn, holder_spec))
     t.arm(("delay", sc["a_delay"]))
@@ -162,7 +206,6 @@ def waiter_scenario(sc, conn, t, lock, out):
     lim = time.time() + 5
     while time.time() < lim and not (lock.locked() and t.delayed):
         time.sleep(0.005)
-    conn.channel._base_channel_args.timeout_ops = tmo      # read by the decorator when an operation is called
     wk = sc["hung"][0]
     wspec = ["gp"] if wk == "gp" else [wk, "show c1o0"]
     waiter = Caller("waiter", op(conn, wspec))
@@ -171,7 +214,6 @@ def waiter_scenario(sc, conn, t, lock, out):
     out["lock_held_while_hung"] = bool(lock.locked() and t.delayed)
     t_w = time.time()
     waiter.start()
-    time.sleep(0.02)
     for q in queued:
         q.start()
     deadline = t_w + tmo + slack
@@ -181,15 +223,151 @@ def waiter_scenario(sc, conn, t, lock, out):
     out["queued"] = [dict(report(holder, t_w), spec=holder_spec)] + [dict(report(c, t_w), spec=s) for c, s in zip(queued, qspecs)]
     out["lock_locked_after"] = lock.locked()
     out["transport_alive_after"] = t.isalive()
+    out["closers"] = list(t.closers)
     stuck = waiter.is_alive() or holder.is_alive() or any(c.is_alive() for c in queued)
-    out["phase2"] = phase2(conn, t, lock, tmo, slack) if not stuck and not lock.locked() else None
+    out["phase2"] = phase2(conn, t, lock, slack) if not stuck and not lock.locked() else None
     return out
 
 
-def phase2(conn, t, lock, tmo, slack):
-    """re-open and use the connection with two fresh callers at once"""
-    out = {}
-    somebody_stuck = False
+def async_waiter_scenario(sc):
+    """asyncio twin of `waiter`: the timeout decorator's `asyncio.wait_for` of a task expires while the task is parked in
+    `async with self.channel_lock:` behind a slow but live holder.  Real asyncio.Lock, real decorator, real small timeout."""
+    import asyncio
+
+    from harness.simtransport import AsyncSimTransport
+
+    class AsyncTimedTransport(AsyncSimTransport):
+        def __init__(self, *a, **kw):
+            super().__init__(*a, **kw)
+            self.delay, self.armed, self.delayed, self.closers, self.owners = None, False, False, [], []
+
+        def _me(self):
+            task = asyncio.current_task()
+            return task.get_name() if task else "?"
+
+        def close(self):
+            self.closers.append(self._me())
+            AsyncSimTransport.close(self)
+
+        def write(self, channel_input):
+            self.owners.append(self._me())
+            if self.delay is not None and MARK.encode() in channel_input:
+                self.armed = True
+            elif self.armed and channel_input == b"\n":
+                late = self.device.on_write(b"\n")
+                self.armed = False
+                self.silent = True
+                AsyncSimTransport.write(self, channel_input)
+                self.silent = False
+                self.delayed = True
+                asyncio.get_running_loop().call_later(self.delay, lambda: self.buf.extend(late))
+                self.delay = None
+                return
+            AsyncSimTransport.write(self, channel_input)
+
+        async def read(self):
+            data = await AsyncSimTransport.read(self)
+            self.owners.append(self._me())
+            return data
+
+    def aop(conn, spec):
+        kind = spec[0]
+        if kind == "gp":
+            return conn.channel.get_prompt()
+        if kind == "si":
+            return conn.channel.send_input(spec[1])
+        if kind == "sir":
+            return conn.channel.send_input_and_read(spec[1], expected_outputs=[PROMPT], read_duration=1.0e6)
+        return conn.channel.send_inputs_interact([(c, PROMPT) for c in spec[1]])
+
+    async def go():
+        tmo, slack, sep = sc["timeout_ops"], sc.get("slack", 8.0), sc.get("separation", 4.0)
+        dev = CliDevice("cisco_iosxe", hostname="r1", outputs=lambda mode, line: ("out<%s>" % line) if line else None)
+        conn, t = make_conn("cisco_iosxe", dev, stack="async", transport_cls=AsyncTimedTransport, on_empty="block", channel_lock=True,
+                            timeout_ops=T_BIG)
+        await t.open()
+        t.buf.clear()
+        lock = conn.channel.channel_lock
+        out = {"lock_type": type(lock).__name__}
+        table = {"waiter": tmo, "holder": sc.get("a_timeout", T_BIG)}
+        for i in range(len(sc["queued"])):
+            table[f"queued{i}"] = tmo + sep
+        conn.channel._base_channel_args = ArgsProxy(conn.channel._base_channel_args, table, T_BIG)
+        out["timeouts"] = table
+        ends = {}
+
+        async def run(name, spec):
+            try:
+                v = await aop(conn, spec)
+                r = ["ok", [x.decode("latin1") for x in v] if isinstance(v, tuple) else v]
+            except asyncio.CancelledError:
+                raise
+            except BaseException as e:  # noqa: BLE001
+                r = ["exc", type(e).__name__, isinstance(e, ScrapliException), str(e)[:120]]
+            ends[name] = (r, time.time())
+            return r
+
+        def rep(name, task, t0, spec=None):
+            r = ends.get(name)
+            d = {"name": name, "alive": not task.done(), "outcome": r[0] if r else None, "elapsed": round(r[1] - t0, 3) if r else None}
+            if spec is not None:
+                d["spec"] = spec
+            return d
+
+        holder_spec = ["si", MARK]
+        t.delay = sc["a_delay"]
+        holder = asyncio.ensure_future(run("holder", holder_spec))
+        holder.set_name("holder")
+        lim = time.time() + 5
+        while time.time() < lim and not (lock.locked() and t.delayed):
+            await asyncio.sleep(0.005)
+        out["lock_held_while_hung"] = bool(lock.locked() and t.delayed)
+        wk = sc["hung"][0]
+        wspec = ["gp"] if wk == "gp" else [wk, "show c1o0"]
+        t_w = time.time()
+        waiter = asyncio.ensure_future(run("waiter", wspec))
+        waiter.set_name("waiter")
+        qspecs = [["gp"] if q[0] == "gp" else [q[0], f"show c{i + 2}o0"] for i, q in enumerate(sc["queued"])]
+        queued = []
+        for i, s_ in enumerate(qspecs):
+            q = asyncio.ensure_future(run(f"queued{i}", s_))
+            q.set_name(f"queued{i}")
+            queued.append(q)
+        await asyncio.wait([waiter, holder] + queued, timeout=tmo + slack)
+        out["hung"] = rep("waiter", waiter, t_w)
+        out["queued"] = [rep("holder", holder, t_w, holder_spec)] + [rep(f"queued{i}", q, t_w, s_) for i, (q, s_) in enumerate(zip(queued, qspecs))]
+        out["lock_locked_after"] = lock.locked()
+        out["transport_alive_after"] = t.isalive()
+        out["closers"] = list(t.closers)
+        out["phase2"] = None
+        if all(x.done() for x in [waiter, holder] + queued) and not lock.locked():
+            t.silent = False
+            t.device = CliDevice("cisco_iosxe", hostname="r1", outputs=lambda mode, line: ("out<%s>" % line) if line else None)
+            t.buf.clear()
+            await t.open()
+            t.buf.clear()
+            n0 = len(t.owners)
+            specs = [["gp"], ["si", "show c8o0"]]
+            t2 = time.time()
+            fresh = []
+            for i, s_ in enumerate(specs):
+                f = asyncio.ensure_future(run(f"fresh{i}", s_))
+                f.set_name(f"fresh{i}")
+                fresh.append(f)
+            await asyncio.wait(fresh, timeout=slack)
+            order = []
+            for o in t.owners[n0:]:
+                if not order or order[-1] != o:
+                    order.append(o)
+            out["phase2"] = {"callers": [rep(f"fresh{i}", f, t2, s_) for i, (f, s_) in enumerate(zip(fresh, specs))], "lock_locked": lock.locked(),
+                             "owner_blocks": len(order), "owners": len(set(order))}
+        return out
+
+    return asyncio.run(go())
+
+
+def phase2(conn, t, lock, slack):
+    """re-open and use the connection with two fresh callers at once (timeout_ops = T_BIG: nothing is meant to time out)"""
     if True:
         t.arm(None)
         t.silent = False
@@ -204,7 +382,7 @@ def phase2(conn, t, lock, tmo, slack):
         for c in fresh:
             c.start()
         for c in fresh:
-            c.join(max(0.0, t2 + tmo + slack - time.time()))
+            c.join(max(0.0, t2 + slack - time.time()))
         order = []
         for o in t.owners[n0:]:
             if not order or order[-1] != o:
@@ -214,7 +392,8 @@ def phase2(conn, t, lock, tmo, slack):
 
 
 if __name__ == "__main__":
-    res = main(json.loads(sys.argv[1]))
+    _sc = json.loads(sys.argv[1])
+    res = async_waiter_scenario(_sc) if _sc.get("async_waiter") else main(_sc)
     sys.stdout.write(json.dumps(res) + "\n")
     sys.stdout.flush()
     os._exit(0)
